@@ -27,6 +27,7 @@ type MessageHandler interface {
 }
 
 func (sm *storedMessages) add(msg *IncMessage, epoch uint64) {
+	verifYield("add")
 	sm.lock.Lock()
 	defer sm.lock.Unlock()
 
@@ -134,6 +135,7 @@ func (b *Box) HandleMessage(msg *IncMessage) {
 func (b *Box) getOrCreateMessagesByTopic(topic []byte) *storedMessages {
 	b.initialize()
 
+	verifYield("getOrCreate.read")
 	b.lock.RLock()
 	messages, exists := b.pendingMessages[string(topic)]
 	b.lock.RUnlock()
@@ -142,6 +144,7 @@ func (b *Box) getOrCreateMessagesByTopic(topic []byte) *storedMessages {
 		return messages
 	}
 
+	verifYield("getOrCreate.write")
 	b.lock.Lock()
 	defer b.lock.Unlock()
 
@@ -158,12 +161,14 @@ func (b *Box) storeOrForward(msg *IncMessage) {
 	b.initialize()
 
 	if b.hasStartedSending(msg.Topic) {
+		verifYield("storeOrForward.forward")
 		b.MessageHandler.HandleMessage(msg)
 		return
 	}
 
 	var tooManyTopicsFromSender bool
 
+	verifYield("storeOrForward.limit")
 	b.lock.RLock()
 	if activeTopicsFromSource, exists := b.totalInFlightTopicsBySender[msg.Source]; exists {
 		tooManyTopicsFromSender = len(activeTopicsFromSource) > b.MaxInFlightTopicsBySender
@@ -182,6 +187,7 @@ func (b *Box) storeOrForward(msg *IncMessage) {
 }
 
 func (b *Box) markTopicForSender(msg *IncMessage) {
+	verifYield("markTopicForSender")
 	b.lock.Lock()
 	defer b.lock.Unlock()
 
@@ -203,6 +209,7 @@ func (b *Box) initialize() {
 func (b *Box) hasStartedSending(topic []byte) bool {
 	b.initialize()
 
+	verifYield("hasStartedSending")
 	b.lock.RLock()
 	defer b.lock.RUnlock()
 
@@ -235,6 +242,7 @@ func (b *Box) maybeGC() {
 }
 
 func (b *Box) sweep(topics2Delete []string) {
+	verifYield("sweep")
 	b.lock.Lock()
 	defer b.lock.Unlock()
 
@@ -254,6 +262,7 @@ func (b *Box) sweep(topics2Delete []string) {
 func (b *Box) mark(now uint64, epochsAfterWhichWeGC time.Duration) []string {
 	var topics2Delete []string
 
+	verifYield("mark")
 	b.lock.RLock()
 	defer b.lock.RUnlock()
 
@@ -277,6 +286,7 @@ func (b *Box) Send(msgType uint8, topic []byte, msg []byte, to ...UniversalID) {
 
 	defer b.maybeGC()
 
+	verifYield("Send")
 	b.lock.Lock()
 	b.startedSending[string(topic)] = atomic.LoadUint64(&b.currentGCEpochNum)
 	msgs := b.pendingMessages[string(topic)]
@@ -294,6 +304,7 @@ func (b *Box) Send(msgType uint8, topic []byte, msg []byte, to ...UniversalID) {
 
 	defer func() {
 		for _, msg := range messages {
+			verifYield("Send.drain")
 			b.HandleMessage(msg)
 		}
 	}()
@@ -302,5 +313,6 @@ func (b *Box) Send(msgType uint8, topic []byte, msg []byte, to ...UniversalID) {
 
 	b.lock.Unlock()
 
+	verifYield("Send.forward")
 	b.ForwardSend(msgType, topic, msg, to...)
 }
